@@ -230,6 +230,8 @@ unsigned MessageBase::decode_group(GroupBase *grpbase, const unsigned short fnum
 			if (grp->_fp.is_group(tv, itr) && has_group_count(bf))
 				s_offset = grp->decode_group(grpbase, tv, from, s_offset, ignore);
 		}
+		if (s_offset < fsize && !result)	// malformed field: end of repeats, do not try again at the same offset forever
+			ok = false;
 
 		const unsigned short missing(grp->_fp.find_missing());
 		if (missing)
